@@ -871,6 +871,29 @@ def load_source(workdir, src):
   spec.loader.exec_module(mod)
   return mod
 
+# ---- unary operators applied directly to explicitly sized constants
+
+def gen_unconst(rng, uid):
+  """`~K` / `-K` with K a BitsN constant (cast call, s.CONST attribute, bare name at module level or construct()
+  local) in a context strictly wider / equal / narrower than K: K keeps its explicit width under the operator"""
+  g = Gen(rng, uid, 'unconst', 0.0)
+  kw = rng.choice([1, 2, 4, 8])
+  cw = rng.choice([kw, kw, kw + rng.choice([1, 4, 8]), kw + 8, max(1, kw - 1)])
+  x = g.new_in(cw); c = g.new_in(1); o = g.new_out(cw); o1 = g.new_out(1)
+  X, C, O, O1 = ['sig', x[0], cw], ['sig', c[0], 1], ['sig', o[0], cw], ['sig', o1[0], 1]
+  K = ['cast', kw, ['num', lit_value(rng, kw), 'lit'], rng.choice(['call', 'const', 'globfv', 'locfv'])]
+  U = ['un', 'inv' if rng.random() < 0.8 else 'neg', K]
+  if rng.random() < 0.1: U = ['un', 'inv', U]
+  l, r = (X, U) if rng.random() < 0.6 else (U, X)
+  k = rng.random()
+  if k < 0.25: block = [['asg', O, U]]
+  elif k < 0.55: block = [['asg', O, ['bin', rng.choice(MAXOPS), l, r]]]
+  elif k < 0.7: block = [['asg', O1, ['cmp', rng.choice(list(CMPOP)), l, r]]]
+  elif k < 0.82: block = [['asg', O, ['ite', C, l, r]]]
+  elif k < 0.92: block = [['tasg', 0, U], ['asg', O, ['bin', 'band', X, ['tmp', 0]]]]
+  else: block = [['ifs', ['cmp', 'eq', l, r], [['asg', O, X]], []]]
+  return {'uid': uid, 'stream': 'unconst', 'sigs': g.sigs, 'block': block}
+
 # ---- labelled streams: one per known soundness hole of the checker (each is a parameterised witness)
 
 def gen_finding(rng, uid, which):
